@@ -21,6 +21,7 @@ DRIVER = "Drivers/C02.lean"
 COMPS = [0, 1, 2, 9, 10, 11]
 KEY_DESC = "dot:port-with-tag-and-own-descendant:order-dependent"
 KEY_MIXED = "cart:ports-with-mixed-tag-depths:order-dependent"
+KEY_IDX = "dot:port-with-tag-and-own-descendant:IndexError"
 KEY_NESTC = "nest:cartesian-over-inner-combinator:raises"
 
 
@@ -342,6 +343,9 @@ CORPUS = [
     ({"kind": "dot", "P": 2}, [(0, "0", 100), (1, "0", 7), (0, "0.0", 5)]),                   # the Lean witness (known finding)
     ({"kind": "dot", "P": 2}, [(0, "0", 1), (1, "0.10", 2), (1, "0.9", 3), (1, "0.1", 4)]),   # component >= 10
     ({"kind": "dot", "P": 2}, [(0, "0.10", 1), (1, "0.10.11", 2), (1, "0.1.0", 3), (0, "0.1", 4)]),
+    # the loop variable `tag` of _product is re-assigned inside `for _ in range(num_items)`: IndexError (known finding)
+    ({"kind": "dot", "P": 3}, [(0, "0.0.0.0", 0), (2, "0", 1), (0, "0.0.0", 2), (1, "0", 3), (0, "0.0", 4), (1, "0.0", 5), (2, "0.0.0.0", 6)]),
+    ({"kind": "dot", "P": 2}, [(1, "0.10", 0), (1, "0.0.0", 1), (1, "0.0", 2), (1, "0.0.0", 3), (1, "0.0", 4), (0, "0", 5), (0, "0.0", 6), (0, "0.0.0", 7), (1, "0", 8), (0, "0.0.0", 9)]),
     ({"kind": "dot", "P": 2}, []),
     ({"kind": "dot", "P": 2}, [(0, "0", 1)]),
     ({"kind": "dot", "P": 2}, [(0, "0", 1), (0, "0", 2), (1, "0", 3), (1, "0", 4)]),          # duplicate tags (outside the quantifier)
@@ -385,16 +389,20 @@ class C02(Property):
         "cartesian key/suffix slices -> SFV/Gen/CombGuards.lean)",
         "modelled, not verified: dict insertion order, deque append/pop, itertools.product order, `dict |= dict` on disjoint keys, "
         "str.split('.')/join — each exercised by the correspondence check on every run",
-        "the lemma tying the loop-faithful model to the closed-form step used by the proofs is stated in SFV/Lemmas/Comb*.lean; where it "
-        "is partial the correspondence check is the tie (see design_notes/C02.md)",
+        "nested combinators (outer dot product over an inner dot/cartesian product) are modelled and compared with the code but have no "
+        "theorem: there the correspondence check and the monitor (composition of the two specifications) are the only evidence",
     ]
-    technique = ("Lean 4 theorems (order independence and exact emitted multiset of the dot product under well-formedness, cartesian "
-                 "cross-product invariant, negative witness by kernel evaluation of the loop-faithful model) + ast translator of the guards "
-                 "+ differential correspondence of emission sequences on all permutations of small streams")
-    level_text = ("grade A: for every number of ports and every well-formed stream the dot product emits, in any arrival order, exactly "
-                  "one combination per complete received tag with the unique prefix-tagged token of every port; the cartesian product "
-                  "emits exactly the cross product per key with composite tags; the full-strength statement without well-formedness is "
-                  "proved false by a witness that reproduces on the real class (known finding)")
+    technique = ("Lean 4 theorems about the loop-faithful executable model (dot product: loop = closed form + order-independence invariant + "
+                 "emitted values; cartesian product: product algebra up to permutation + 'emitted so far = all configurations' invariant; "
+                 "negative witnesses by kernel evaluation) + ast translator of the guards/slices + differential correspondence of emission "
+                 "sequences on all permutations of small streams + step-level monitor through a real CombinatorStep under a controlled loop")
+    level_text = ("grade A for flat combinators: for every number of ports, every well-formed stream and every arrival order the dot product "
+                  "raises nothing and emits exactly one combination per complete received tag with the unique prefix-tagged token of every "
+                  "port (values included); the cartesian product (any depth >= 1) emits exactly the cross product per key with the composite "
+                  "tags; both proved about the loop-faithful model the driver runs. The full-strength statements without well-formedness are "
+                  "proved false by witnesses that reproduce on the real classes (known findings: order dependence, IndexError, mixed "
+                  "depths). Nested combinators (depth-2 trees): modelled, correspondence + monitor only (no theorem); a cartesian product "
+                  "over an inner combinator crashes on the real class (known finding)")
     level_note = ("Lean kernel, axioms within {propext, Classical.choice, Quot.sound}; theorems are about the Lean models in SFV/Model/Comb.lean "
                   "(loop-faithful) and SFV/Lemmas/Comb*.lean (closed form); the tie to the Python classes is the translator of the guards plus "
                   "the correspondence check of emission sequences; nested combinators are covered by correspondence and monitor only")
@@ -454,6 +462,13 @@ class C02(Property):
                     break
         else:
             dup = has_dup(ports, S)
+            exc = next(((o, e) for o, e in zip(ords, errs) if e is not None), None)
+            if exc is not None:
+                ctx.count(f"{kind}:nonwf:exception:{exc[1]}")
+                if kind == "dot" and not dup:
+                    ctx.fail(KEY_IDX, f"dot product over {shape['P']} ports, stream {S} (a port carries a tag and descendants of it), arrival order "
+                                      f"{list(exc[0])}: combine() raised {exc[1]} after {len(results[ords.index(exc[0])][0])} emissions",
+                             {"shape": shape, "stream": S, "orders": [list(exc[0])]})
             dep = next((o for o, c, e in zip(ords, cans, errs) if c != cans[0] or e != errs[0]), None)
             if dep is not None:
                 ctx.count(f"{kind}:nonwf:order-dependent")
@@ -581,6 +596,8 @@ class C02(Property):
         self._flush(ctx, batch)
         self._nestc(ctx, wf)
         self._steps(ctx)
+        # the replay written for a key is the first failure of that key: put the smallest streams first
+        ctx.failures.sort(key=lambda f: len(f.replay.get("stream", [])) if isinstance(f.replay, dict) else 99)
 
     def _steps(self, ctx: Ctx) -> None:
         """well-formed streams through a real CombinatorStep (ports, persistence, `asyncio.wait` in `run`) under the
@@ -693,6 +710,8 @@ class C02(Property):
             if wfok and (err is not None or canon(out) != spec):
                 ctx.fail(f"{kind}:wf:not-the-specified-combinations", f"order {list(o)} emits {canon(out)}, specified {spec}", r)
         cans = [canon(out) for out, _ in results]
+        if not wfok and kind == "dot" and not has_dup(ports, S) and any(e is not None for _, e in results):
+            ctx.fail(KEY_IDX, f"combine() raised {[e for _, e in results if e][0]}", r)
         if not wfok and any(c != cans[0] for c in cans) and not has_dup(ports, S):
             ctx.fail(KEY_DESC if kind == "dot" else KEY_MIXED, f"orders emit different multisets: {cans}", r)
 
